@@ -183,7 +183,33 @@ fn exact_fit_margin(canon: &Canon, code_len: usize, w: Width) -> isize {
     (((need + half - 1) / half) * half) as isize
 }
 
+/// The unchecked entry point has no budget and no bounds checks: every program is judged inside a
+/// forked child so that a wild run (hang, fault) costs one child and is attributed through the
+/// shared case marker.
 pub fn c10_program(ctx: &mut WorkerCtx, p: &Plan, idx: u64, tag: &str, code: &[u8]) {
+    let r = ctx.in_child(8_000, |c| c10_program_inner(c, p, idx, tag, code));
+    let what = match r {
+        Iso::Done(_) => return,
+        Iso::Timeout => ("hang", "execute_unsafe did not return within 8 s".to_string()),
+        Iso::Signal(s) => ("crash", format!("signal {s} during execute_unsafe")),
+        Iso::Exit(e) => ("crash", format!("child exited with status {e}")),
+    };
+    let (_, sub) = ctx.read_mark();
+    let backend = if (sub >> 40) & 0xf == Backend::BaseJit as u64 { Backend::BaseJit } else { Backend::BcInt };
+    let w = Width::from_bits(((sub >> 32) & 0xff) as u32).unwrap_or(Width::W8);
+    let level = ((sub >> 8) & 0xff) as u32;
+    let f = Failure {
+        class: what.0.into(),
+        mode: "unsafe".into(),
+        observed: String::new(),
+        expected: String::new(),
+        first_diff: 0,
+        detail: what.1,
+    };
+    ctx.fail(failure_json("C10", backend, w, level, code, &[], &f));
+}
+
+fn c10_program_inner(ctx: &mut WorkerCtx, p: &Plan, idx: u64, tag: &str, code: &[u8]) {
     let text = std::str::from_utf8(code).unwrap();
     ctx.count("programs", 1);
     for &w in &p.widths {
